@@ -2,7 +2,8 @@
 EXTENDS PathsResolve
 CONSTANT More    \* BOOLEAN: further path shapes (thorough)
 P(t, c, up, segs) == [text |-> t, class |-> c, up |-> up, segs |-> segs]
-Shapes == { P("./x", "rel", 0, <<"x">>), P("x/y", "rel", 0, <<"x", "y">>), P("../x", "rel", 1, <<"x">>), P(".", "rel", 0, <<>>),
+\* inc/x, sub/x, deep/x: values that start with the name of the directory their own file sits in (joined like any other)
+Shapes == { P("./x", "rel", 0, <<"x">>), P("x/y", "rel", 0, <<"x", "y">>), P("inc/x", "rel", 0, <<"inc", "x">>), P("sub/x", "rel", 0, <<"sub", "x">>), P("inc/deep/x", "rel", 0, <<"inc", "deep", "x">>), P("../x", "rel", 1, <<"x">>), P(".", "rel", 0, <<>>),
             P("./a/../b", "rel", 0, <<"b">>), P("./vendor/github.com/acme/tool", "rel", 0, <<"vendor", "github.com", "acme", "tool">>),
             P("checkouts/git@work/app", "rel", 0, <<"checkouts", "git@work", "app">>), P("mirror/https/x", "rel", 0, <<"mirror", "https", "x">>), P("../../z", "rel", 2, <<"z">>),
             P("/abs/dir", "abs", 0, <<>>), P("/abs/dir/", "abs", 0, <<>>), P("/abs/a/../b", "abs", 0, <<>>), P("/abs//x/./y", "abs", 0, <<>>), P("~/x", "home", 0, <<"x">>), P("~", "home", 0, <<>>),
